@@ -1383,6 +1383,130 @@ def run_crlb_gradients(ctx, sq, n):
                                signature={"site": site, "why": "variable-order"})
 
 
+# ------------------------------------------------------------------ (i) hessian, scale: tiny second derivatives of parameters
+def gen_scale_case(rng):
+    """parameter expressions  base + 2^-k * (quadratic form in x, y), k = 20..40, at large x, y: the second
+    derivative of the PARAMETER is small in absolute value (2^-19 .. 2^-40) while its contribution
+    dS/dparam * d2param to the signal's hessian is the leading term or comparable to it"""
+    vals = {"x": float(rng.choice([96, 160, 640, 1000, 1536])), "y": float(rng.choice([80, 192, 768, 1250]))}
+    blocks = rng.randint(2, 3)
+    ops = [{"op": "T", "args": {"alpha": C(40), "phi": C(0)}, "kw": []}]
+    slots = []
+    for b in range(blocks):
+        ops.append({"op": "S", "args": {"k": C(1)}, "kw": []})
+        ops.append({"op": "E", "args": {"tau": C(5), "T1": C(1000), "T2": C(rng.choice([50, 80])), "g": C(Fraction(1, 64))}, "kw": ["g"] if rng.random() < 0.5 else []})
+        slots += [(len(ops) - 1, p) for p in ("tau", "T1", "T2", "g")]
+        if rng.random() < 0.7:
+            ops.append({"op": "T", "args": {"alpha": C(rng.choice([60, 120])), "phi": C(30)}, "kw": []})
+            slots += [(len(ops) - 1, "alpha"), (len(ops) - 1, "phi")]
+        ops.append({"op": "ADC"})
+    chosen = rng.sample(slots, rng.randint(1, 3))
+    x, y = V("x"), V("y")
+    for (i, pname) in chosen:
+        base = ops[i]["args"][pname]
+        k = rng.randint(20, 40)
+        quad = rng.choice([A("mul", x, x), A("pow", x, C(2)), A("mul", x, y), A("mul", y, y),
+                           A("add", A("mul", x, x), A("mul", x, y)), A("mul", A("add", x, y), A("add", x, y))])
+        if pname == "g":
+            k += 8
+        t = A("add", base, A("mul", C(Fraction(1, 2 ** k)), quad))
+        if rng.random() < 0.25:     # plus a first-order term of ordinary size
+            t = A("add", t, A("mul", C(Fraction(1, 2 ** rng.randint(10, 14))), rng.choice([x, y])))
+        ops[i]["args"][pname] = t
+    return {"ops": ops, "vals": vals, "slots": [[i, pn] for i, pn in chosen]}
+
+
+def scale_check(case, sq):
+    """-> (why | None, list of (coq term, exact value) for the parameter derivatives used, leading-term flag).
+    Oracle: the same sequence with every expression parameter replaced by a fresh plain variable q_i gives
+    dS/dq_i and d2S/dq_i dq_j (no parameter-level second derivative is involved there; that path is checked
+    against central differences at ordinary scales); chain rule with the exact derivatives of the parameter
+    expressions (dyadic: binary64 exact, confirmed inside Coq against the model's derive)."""
+    import copy
+    vals = case["vals"]
+    sA = build_shared(case, sq)
+    cB = copy.deepcopy(case)
+    qs, exprs, trees = [], [], []
+    for n_, (i, pn) in enumerate(case["slots"]):
+        t = case["ops"][i]["args"][pn]
+        cB["ops"][i]["args"][pn] = V("q%d" % n_)
+        qs.append("q%d" % n_)
+        trees.append(t)
+        exprs.append(to_py(t, sq))
+    valsB = {q: float(e(**vals)) for q, e in zip(qs, exprs)}
+    sB = build_shared(cB, sq)
+    V2 = sorted(set().union(*[tree_vars(t) for t in trees]))      # only variables the sequence has
+    sig, jac, hes = sA.hessian(V2)(dict(vals))
+    sigB, JB, HB = sB.hessian(qs)(dict(valsB))
+    if sig.shape != sigB.shape or np.abs(sig - sigB).max() > 1e-13:
+        return "signal differs from the sequence with evaluated parameters", [], False
+    dp = np.array([[float(e.derive(v)(**vals)) for v in V2] for e in exprs])                      # (nq, 2)
+    d2p = np.array([[[float(e.derive(v).derive(w)(**vals)) for w in V2] for v in V2] for e in exprs])   # (nq, 2, 2)
+    coq = []
+    E = [to_coq(t) for t in trees]
+    qv = {k: Fraction(v) for k, v in vals.items()}
+    for n_, e in enumerate(E):
+        for a, v in enumerate(V2):
+            coq.append(("okq (evalQ (qenv %s) (derive \"%s\" %s)) (Some %s) (0 # 1)" % (env_coq(qv), v, e, qlit(Fraction(dp[n_, a]))), "d p%d / d%s" % (n_, v)))
+            for b, w in enumerate(V2):
+                coq.append(("okq (evalQ (qenv %s) (derive \"%s\" (derive \"%s\" %s))) (Some %s) (0 # 1)" % (
+                    env_coq(qv), w, v, e, qlit(Fraction(d2p[n_, a, b]))), "d2 p%d / d%s d%s" % (n_, v, w)))
+    t1 = np.einsum("...ij,ia,jb->...ab", HB, dp, dp)
+    t2 = np.einsum("...i,iab->...ab", JB, d2p)
+    m1 = np.einsum("...ij,ia,jb->...ab", np.abs(HB), np.abs(dp), np.abs(dp))
+    m2 = np.einsum("...i,iab->...ab", np.abs(JB), np.abs(d2p))
+    exp = t1 + t2
+    leading = bool(np.any(m2 > 1e-3 * m1))
+    ej = np.einsum("...i,ia->...a", JB, dp)
+    mj = np.einsum("...i,ia->...a", np.abs(JB), np.abs(dp))
+    if np.any(np.abs(jac - ej) > 1e-9 * mj + 1e-300):
+        return "jacobian %s differs from the chain rule %s" % (jac.tolist(), ej.tolist()), coq, leading
+    # relative to the size of the terms of each entry; absolute floor 1e-300 (the terms are ~1e-8 .. 1e-16)
+    bad = np.abs(hes - exp) > 1e-7 * (m1 + m2) + 1e-300
+    if np.any(bad):
+        idx = tuple(int(i) for i in np.argwhere(bad)[0])
+        a, b = idx[-2], idx[-1]
+        return ("d2 signal / d%s d%s [ADC %d] = %r, chain rule with the exact parameter derivatives gives %r "
+                "(= sum_ij d2S/dq_i dq_j dp_i dp_j [%r] + sum_i dS/dq_i d2p_i [%r]; d2p = %s)" % (
+                    V2[a], V2[b], idx[-3], complex(hes[idx]), complex(exp[idx]), complex(t1[idx]), complex(t2[idx]),
+                    [float(d2p[n_, a, b]) for n_ in range(len(qs))])), coq, leading
+    return None, coq, leading
+
+
+def run_scale(ctx, sq, n):
+    rng = ctx.rng
+    terms, labels, reported = [], [], False
+    for k in range(n):
+        case = gen_scale_case(rng)
+        desc = shared_desc(case)
+        try:
+            why, coq, leading = scale_check(case, sq)
+        except Exception as e:
+            why, coq, leading = "raised %s: %s" % (type(e).__name__, str(e)[:200]), [], False
+        ctx.count(("hess-scale", desc, tuple(sorted(case["vals"].items()))), nontrivial=leading)
+        ctx.cov["hessian_scale_cases"] = ctx.cov.get("hessian_scale_cases", 0) + 1
+        ctx.cov["hessian_scale_leading"] = ctx.cov.get("hessian_scale_leading", 0) + int(leading)
+        terms += [t for t, _ in coq]
+        labels += [(desc, l) for _, l in coq]
+        if why and not reported:
+            reported = True
+            ctx.report("Sequence %s, hessian of its variables at %s: %s" % (desc, case["vals"], why),
+                       {"kind": "hessian-scale", "case": case, "sequence": desc, "why": why}, found_input=True,
+                       signature={"site": "Sequence.hessian", "why": "small-second-derivative"})
+    if terms:
+        verdicts, errors = ctx.run_bool_cases("scale", HEADER_Q, terms, chunk=200)
+        for e in errors:
+            ctx.report("scale stream: parameter derivatives could not be evaluated in Coq",
+                       {"theorem_or_correspondence": "C11 scale stream (Cases)", "coq_output": e}, found_input=False)
+        for (desc, l), v in zip(labels, verdicts):
+            if v is False:
+                ctx.report("scale stream: %s of %s differs from the model's derive (exact dyadic comparison)" % (l, desc),
+                           {"theorem_or_correspondence": "C11 expression correspondence Model/Expr.v vs epgpy.sequence", "sequence": desc},
+                           found_input=False)
+                break
+        ctx.cov["hessian_scale_exact_param_derivatives"] = len(terms)
+
+
 # ------------------------------------------------------------------ verdicts computed inside Coq
 def coq_vop_verdicts(ctx, vops):
     terms = ["vop_binding_ok (nth %d vop_table (Build_vop_entry \"\" \"\" [] [] []))" % i for i in range(len(vops))]
@@ -1425,6 +1549,8 @@ def run(ctx):
     run_batches(ctx, sq, 12 if quick else 120)
     run_twins(ctx, sq, 21 if quick else 210)
     run_crlb_gradients(ctx, sq, 3 if quick else 30)
+    if proved:
+        run_scale(ctx, sq, 10 if quick else 100)
     ctx.cov["trusted_base"] += [
         "translator /verif/translator/seq_tables.py (Python ast -> Gen/SeqTables.v: math table, virtual-operator table, __init__ signatures)",
         "hand-written model Model/Expr.v (ten python/numpy primitives, Expression.derive/map transcription), tied to epgpy.sequence by exact rational and Interval correspondence",
@@ -1474,6 +1600,16 @@ def replay(ctx, rp):
             outs.add(p.stdout.strip().split("\n")[-1])
         print("replay: %s -> %s" % (rp["call"], sorted(outs)))
         return 0 if outs == {"same"} else 1
+    if kind == "hessian-scale":
+        def tup(t):
+            return (t[0], Fraction(t[1])) if t[0] == "c" else (t[0], t[1]) if t[0] == "v" else (t[0], t[1], [tup(a) for a in t[2]])
+        case = rp["case"]
+        for o in case["ops"]:
+            if "args" in o:
+                o["args"] = {p: tup(t) for p, t in o["args"].items()}
+        why = scale_check(case, sq)[0]
+        print("replay: %s" % ("VIOLATION reproduced: " + why if why else "hessian agrees with the chain rule"))
+        return 1 if why else 0
     if kind == "hessian-magnitude":
         def tup(t):
             return (t[0], Fraction(t[1])) if t[0] == "c" else (t[0], t[1]) if t[0] == "v" else (t[0], t[1], [tup(a) for a in t[2]])
